@@ -225,6 +225,14 @@ func runC05(p *Prog, r *Report, tier string) {
 			}
 			extra = append(extra, f)
 		}
+		// tests that decide whether the update is reached without dominating it (a 'continue' / early exit on one arm
+		// of a compound condition): one arm reaches the update within the iteration, the other does not
+		for _, f := range controllingConds(p, st.in.Block()) {
+			if structural(f) || structural(strings.TrimPrefix(f, "!")) || allowed(f) || allowed(strings.TrimPrefix(f, "!")) {
+				continue
+			}
+			extra = append(extra, f)
+		}
 		r.Check(len(extra) == 0, "R-VALUE.exact", "aggregateRecords: "+what+" := "+st.arg, p.instrPos(st.in), "updated under exactly the conditions the invariant names",
 			fmt.Sprintf("the update is additionally conditioned on %v: for records where that does not hold the field is not brought up to date", extra), true)
 	}
@@ -1011,4 +1019,56 @@ func innermostGuardIsExists(b *ssa.BasicBlock) bool {
 		b = pr
 	}
 	return false
+}
+
+// controllingConds: the conditions of the If blocks that decide whether block s runs in the current loop iteration without
+// one of their edges dominating s (so guardsOf does not list them): exactly one successor reaches s without passing the
+// head of s's innermost loop. Loop-head tests are skipped (loop bounds).
+func controllingConds(p *Prog, s *ssa.BasicBlock) []string {
+	head := loopHeadOf(s)
+	reach := func(from *ssa.BasicBlock) bool {
+		seen := map[*ssa.BasicBlock]bool{}
+		work := []*ssa.BasicBlock{from}
+		for len(work) > 0 {
+			b := work[len(work)-1]
+			work = work[:len(work)-1]
+			if b == s {
+				return true
+			}
+			if seen[b] || (head != nil && b == head) {
+				continue
+			}
+			seen[b] = true
+			work = append(work, b.Succs...)
+		}
+		return false
+	}
+	dom := map[*ssa.If]bool{}
+	for _, g := range guardsOf(s) {
+		dom[g.If] = true
+	}
+	var out []string
+	for _, b := range s.Parent().Blocks {
+		if len(b.Instrs) == 0 || b == s {
+			continue
+		}
+		iff, ok := b.Instrs[len(b.Instrs)-1].(*ssa.If)
+		if !ok || dom[iff] || loopHeadOf(b) == b {
+			continue
+		}
+		if head != nil && !head.Dominates(b) {
+			continue
+		}
+		r0, r1 := reach(b.Succs[0]), reach(b.Succs[1])
+		if r0 == r1 {
+			continue
+		}
+		t := p.nf(iff.Cond)
+		if r1 {
+			t = "!" + t
+		}
+		out = append(out, t)
+	}
+	sort.Strings(out)
+	return out
 }
